@@ -7,6 +7,7 @@ import Lemmas.Alter.Mssql
 import Lemmas.Alter.Schema
 import Lemmas.Alter.Raises
 import Lemmas.Alter.PgIdentity
+import Lemmas.Alter.Address
 /-!
 # C13 — alter_column changes only what it was asked to change, on every dialect
 
@@ -224,60 +225,55 @@ example : exactOk .postgresql sampleReq sampleInit
 
 /-! ## schema -/
 
-/-- full statement: every statement carries the requested schema, on every dialect -/
-def schema_statement : Prop := ∀ (d : Dialect) (r : Req), schemaOk r (alterColumn d r) = true
+/-- **Schema.** Every emitted statement names the requested table and schema, on every dialect
+(including Oracle's `COMMENT ON COLUMN`). -/
+theorem schema (d : Dialect) (r : Req) : schemaOk r (alterColumn d r) = true :=
+  alterColumn_allT d r
 
+/-- the request whose Oracle `COMMENT ON COLUMN` used to lose the schema -/
 def schemaWitness : Req :=
   { table := "t1", column := "c1", schema := some "s1",
     type_ := none, nullable := none, serverDefault := .unset, newName := none, comment := .set "hello",
     autoinc := none, exType := none, exNullable := none, exDefault := .unset, exComment := none,
     exAutoinc := none, usingE := none }
 
-/-- Oracle's `COMMENT ON COLUMN` drops the schema (`alembic/ddl/oracle.py: visit_column_comment`
-formats `element.table_name` only) -/
-theorem schema_counterexample : ¬ schema_statement := by
-  intro h
-  have := h .oracle schemaWitness
-  revert this
-  decide
+example : (alterColumn .oracle schemaWitness).stmts = [.comment ⟨some "s1", "t1"⟩ "c1" (some "hello")] := by decide
 
-/-- **Schema.** Every statement names the requested table and schema — on six dialects always,
-on Oracle whenever no comment change is requested (or no schema is given). -/
-theorem schema_partial (d : Dialect) (r : Req)
-    (h : d ≠ .oracle ∨ r.comment = .unset ∨ (tref r).schema = none) :
-    schemaOk r (alterColumn d r) = true :=
-  alterColumn_allT d r h
-
-/-- non-vacuity: an Oracle request with schema and without comment satisfies the hypothesis,
-and the checker rejects a statement that lost the schema -/
+/-- non-vacuity: the checker rejects a statement that lost the schema -/
 example : schemaOk sampleReq (alterColumn .oracle sampleReq) = true := by decide
 example : schemaOk sampleReq ⟨[.type_ ⟨none, "t"⟩ "c" "VARCHAR(20)" none], none⟩ = false := by decide
 
 /-! ## addressing -/
 
-/-- full statement: every statement refers to the column by the name it has at that point -/
-def addressed_statement : Prop := ∀ (d : Dialect) (r : Req), addressOk r.column (alterColumn d r).stmts = true
+/-- **Addressing.** Every statement that refers to a column — the attribute statements and the
+CHECK constraint of the new schema type that `toimpl.alter_column` adds after the dialect's alter —
+refers to it by the name the column has at that point of the script: the rename (or MySQL `CHANGE`)
+comes last among the dialect's statements and the constraint is built on `new_column_name or
+column_name`.  (`new_column_name=""` is not a name: Python's `or` falls back to the old one.) -/
+theorem addressed (d : Dialect) (r : Req) (h : r.newName ≠ some "") :
+    addressOk r.column (alterColumn d r).stmts = true :=
+  (alterColumn_addr d r h).1
 
+/-- ... and when the call does not raise the column ends with the requested name -/
+theorem addressed_end (d : Dialect) (r : Req) (h : r.newName ≠ some "")
+    (hok : (alterColumn d r).err = none) :
+    (alterColumn d r).stmts.foldl nextName r.column = r.newName.getD r.column :=
+  (alterColumn_addr d r h).2 hok
+
+/-- rename + constraint-bearing new type: the constraint names the new column -/
 def addressWitness : Req :=
   { table := "t1", column := "c1", schema := none,
     type_ := some ⟨"BOOLEAN", false, some (some "ck_b1")⟩, nullable := none, serverDefault := .unset,
     newName := some "c2", comment := .unset, autoinc := none, exType := none, exNullable := none,
     exDefault := .unset, exComment := none, exAutoinc := none, usingE := none }
 
-/-- `toimpl.alter_column` builds the schema-type CHECK constraint of the new type on
-`operations.schema_obj.column(column_name, type_)` — the *old* column name — and adds it after the
-dialect's alter has already renamed the column: `ALTER TABLE t1 RENAME c1 TO c2` is followed by
-`ALTER TABLE t1 ADD CONSTRAINT ck_b1 CHECK (c1 IN (0, 1))`. -/
-theorem addressed_counterexample : ¬ addressed_statement := by
-  intro h
-  have := h .default addressWitness
-  revert this
-  decide
+example : (alterColumn .default addressWitness).stmts =
+    [.type_ ⟨none, "t1"⟩ "c1" "BOOLEAN" none, .rename ⟨none, "t1"⟩ "c1" "c2",
+     .addConstraint ⟨none, "t1"⟩ (some "ck_b1") "c2"] := by decide
 
-/-- the attribute statements are covered by `exact_partial` (a statement that names a column
-other than the current one does nothing in `applyStmt`, so a misaddressed one makes `requestedOk`
-fail); without a rename and a constraint-bearing new type the checker accepts the output -/
-example : addressOk sampleReq.column (alterColumn .mssql sampleReq).stmts = true := by decide
+/-- the checker rejects the constraint on the old name after the rename -/
+example : addressOk "c1" [.rename ⟨none, "t1"⟩ "c1" "c2", .addConstraint ⟨none, "t1"⟩ (some "ck_b1") "c1"] = false := by
+  decide
 
 /-! ## dialects that cannot express a requested change raise -/
 
